@@ -742,6 +742,14 @@ func ext۰strings۰Builder۰String(fr *frame, args []value) value {
 func extSync(what string) externalFn {
 	return func(fr *frame, a []value) value {
 		fr.i.ps.events = append(fr.i.ps.events, "sync:"+what)
+		switch what {
+		case "Mutex.Lock", "Mutex.TryLock", "RWMutex.Lock", "RWMutex.TryLock":
+			fr.i.ps.wlock++
+		case "Mutex.Unlock", "RWMutex.Unlock":
+			if fr.i.ps.wlock > 0 {
+				fr.i.ps.wlock--
+			}
+		}
 		return nil
 	}
 }
@@ -768,6 +776,8 @@ func ext۰sync۰Once۰Do(fr *frame, args []value) value {
 		if fr.i.mon != nil {
 			fr.i.mon.onStore2(fr, cell, "sync.Once")
 		}
+		fr.i.ps.wlock++ // the body of Do runs once, ordered before every later Do
+		defer func() { fr.i.ps.wlock-- }()
 		call(fr.i, fr, 0, args[1], nil)
 	}
 	return nil
